@@ -7,6 +7,7 @@ CONSTANTS
   Wnds = {3, 16}
   Variant = "forget"
   EmitOps = TRUE
+  EmitEvery = 20
   AllowNTL = TRUE
   TwoWrites = TRUE
   AllowNil = FALSE
